@@ -685,9 +685,14 @@ req0_ctx_cancel_send(nni_aio *aio, void *arg, nng_err rv)
 
 	nni_mtx_lock(&s->mtx);
 	if (ctx->send_aio == aio) {
-		// There should not be a pending reply, because we canceled
-		// it while we were waiting.
-		NNI_ASSERT(ctx->recv_aio == NULL);
+		nni_aio *recv_aio;
+		// A receive may have been started before the send completed.
+		// Its request is being discarded, so it must not be left
+		// waiting for a reply that can never arrive.
+		if ((recv_aio = ctx->recv_aio) != NULL) {
+			ctx->recv_aio = NULL;
+			nni_aio_finish_error(recv_aio, NNG_ECANCELED);
+		}
 		ctx->send_aio = NULL;
 		// Restore the message back to the aio.
 		nni_aio_set_msg(aio, ctx->req_msg);
